@@ -157,6 +157,80 @@ def gen_sharepoint() -> str:
     p9 = mod._parse_iso_datetime("2024-01-15T10:00:00.9Z")
     keeps_fraction = p9 == datetime(2024, 1, 15, 10, 0, 0, 900000, tzinfo=timezone.utc)
 
+    # ---- start folders by path (`_get_folder_by_path`): URL template, which characters stay unquoted, which are
+    # stripped at the ends, which HTTP statuses mean "no such folder" — all probed on the real method and
+    # cross-checked with the literals in its source
+    M_PATH = "PATHMARK0"
+    by_path_urls = []
+
+    def cap_path(req, timeout=None):
+        by_path_urls.append(req.full_url)
+        return _Resp(200, b'{"id": "X", "folder": {}}')
+
+    c5 = _client(mod, cap_path)
+    c5._access_token = "t"
+
+    def path_url(path):
+        del by_path_urls[:]
+        c5._get_folder_by_path(M_SITE, path)
+        return by_path_urls[-1] if by_path_urls else ""
+
+    u0 = path_url(M_PATH)
+    if u0.count(M_SITE) != 1 or u0.count(M_PATH) != 1 or not u0.endswith(M_PATH) or u0.index(M_SITE) > u0.index(M_PATH):
+        notes.append("_get_folder_by_path: request URL has an unexpected shape")
+        path_a, path_b = u0, ""
+    else:
+        path_a, rest = u0.split(M_SITE)
+        path_b = rest[: -len(M_PATH)]
+    kept, stripped = [], []
+    for o in range(0x20, 0x7F):
+        ch = chr(o)
+        u = path_url("a" + ch + "b")
+        tail = u[len(path_a) + len(M_SITE) + len(path_b):]
+        if tail == "a" + ch + "b":
+            kept.append(o)
+        elif tail != "a%" + "%02X" % o + "b":
+            notes.append(f"_get_folder_by_path: character {o:#x} is neither kept nor percent-encoded in upper-case hex ({tail!r})")
+        u = path_url(ch + "x" + ch)
+        tail = u[len(path_a) + len(M_SITE) + len(path_b):]
+        if tail == "x":
+            stripped.append(o)
+        elif not (tail.startswith(ch) or tail.startswith("%")):
+            notes.append(f"_get_folder_by_path: unexpected treatment of {o:#x} at the ends ({tail!r})")
+    gfp = _func_of(tree, "SharePointRestClient", "_get_folder_by_path")
+    safe_lits = []
+    for sub in ast.walk(gfp) if gfp else []:
+        if isinstance(sub, ast.Call) and isinstance(sub.func, ast.Name) and sub.func.id == "quote":
+            safe_lits += [kw.value.value for kw in sub.keywords if kw.arg == "safe" and isinstance(kw.value, ast.Constant)]
+    import urllib.parse as _up
+    always = sorted(_up._ALWAYS_SAFE) if hasattr(_up, "_ALWAYS_SAFE") else None
+    if gfp is None:
+        notes.append("_get_folder_by_path not found in the source")
+    elif len(safe_lits) != 1:
+        notes.append("_get_folder_by_path: expected exactly one quote(..., safe=<literal>) call")
+    elif always is not None and sorted(set(always) | {ord(x) for x in safe_lits[0]}) != sorted(kept):
+        notes.append("_get_folder_by_path: probed unquoted characters differ from urllib's always-safe set + the safe= literal")
+
+    def lookup_status(st):
+        def raise_st(req, timeout=None):
+            raise HTTPError(req.full_url, st, "x", {}, _Fp(b"{}"))
+        c6 = _client(mod, raise_st)
+        c6._access_token = "t"
+        try:
+            return c6._get_folder_by_path(M_SITE, "a") is None
+        except exc.SharePointRequestError:
+            return False
+
+    swallowed_st = [st for st in range(100, 600) if lookup_status(st)]
+    int_lits = {n.value for n in ast.walk(gfp) if isinstance(n, ast.Constant) and type(n.value) is int} if gfp else set()
+    if set(swallowed_st) != int_lits:
+        notes.append(f"_get_folder_by_path: statuses treated as 'not found' {swallowed_st} differ from its integer literals {sorted(int_lits)}")
+    # a folder facet is required, the id is taken as it comes
+    c7 = _client(mod, lambda req, timeout=None: _Resp(200, b'{"id": "X", "file": {}}'))
+    c7._access_token = "t"
+    if c7._get_folder_by_path(M_SITE, "a") is not None:
+        notes.append("_get_folder_by_path: an item without a folder facet is accepted")
+
     # ---- closed world: every HTTP request goes through _send
     request_sites, urlopen_sites, send_callers = [], [], []
     for node in tree.body:
@@ -192,6 +266,14 @@ def gen_sharepoint() -> str:
     L.append(f"def itemA : Str := {chars(item_a)}")
     L.append(f"def itemB : Str := {chars(item_b)}")
     L.append(f"def itemC : Str := {chars(item_c)}\n")
+    L.append("/-- `_get_folder_by_path` requests `pathA ++ site ++ pathB ++ quote(path.strip('/'))` -/")
+    L.append(f"def pathA : Str := {chars(path_a)}")
+    L.append(f"def pathB : Str := {chars(path_b)}")
+    L.append("/-- ASCII code points (0x20..0x7e) the real `_get_folder_by_path` leaves unquoted / strips at both ends -/")
+    L.append("def keptAscii : List Nat := " + lean_list((str(x) for x in kept), per_line=20))
+    L.append("def strippedAscii : List Nat := " + lean_list((str(x) for x in stripped), per_line=20))
+    L.append("/-- HTTP statuses (100..599) for which the real `_get_folder_by_path` returns None instead of raising -/")
+    L.append("def notFoundStatuses : List Nat := " + lean_list((str(x) for x in swallowed_st), per_line=20) + "\n")
     L.append(f"def statusLo : Nat := {lo}\ndef statusHi : Nat := {hi}")
     L.append("/-- (status, accepted by the real `_send`) -/")
     L.append("def statusProbes : List (Nat × Bool) := " + lean_list((f"({s}, {'true' if b else 'false'})" for s, b in probes), per_line=6) + "\n")
